@@ -75,6 +75,11 @@ CHECKS = {
          "For every pattern of which transactions of a block touch the client's key list, the lite block must keep id/hash/signature/header, contain every touching transaction unchanged and in order, account for every omitted one, allow the header's merkle root to be recomputed from its transactions, and keep all of that after serialisation. Placeholder merging depends on the position pattern, which is enumerated completely for small n.",
          "Open known finding F27: whenever two adjacent omitted transactions are merged the commitment is not recomputable (keyed by merged/unmerged so that a regression of the unmerged case is still reported). The HTTP route in saito-rust that serves lite blocks is not driven; the same Block::generate_lite_block + serialize_for_net calls are.",
          "DESIGN.md §3 C18"),
+ "C16": ("exploration",
+         "stateful model-based testing through the routing layer with an I/O-boundary monitor: exhaustive operation sequences to depth 4 (quick) / 5 (thorough) over a small universe plus proptest-generated sequences to length 60, each run to quiescence",
+         "The scheduler is only driven by what the node really receives (header-hash announcements from authenticated peers, timer ticks, fetched blocks, fetch failures, blocks arriving by another route) and only observed where its decisions leave the node (fetch_block_from_peer). A harness-side model of the fetches in flight checks the per-peer bound, height order and no-skip within each selection round, no double request, completeness at quiescence and the retry bound (1200 rounds with an always-failing block).",
+         "Ordering is asserted among never-failed entries (a failed entry re-enters one round later by design). Open known findings F28/F28b (the scheduler forgets outstanding fetches when the block arrives from elsewhere) are keyed by root cause: an excess or double request that is not explained by such a forgotten fetch is still a violation.",
+         "DESIGN.md §3 C16"),
 }
 NOT_YET = {}
 
